@@ -1010,7 +1010,9 @@ pub fn rcx_event(sink: &Sink, r: &mut Rng) {
         r.dna(n, &[0, 1, 2, 3])
     };
     let kk = *r.pick(&[2usize, 3, 4, 5, 8, 16, 31, 32]);
-    let desc = json!({"op":"rcx","s":s,"kk":kk});
+    let pad = *r.pick(&[1usize, 3, 5, 31, 32, 33, 40]);
+    let tail = *r.pick(&[0usize, 1, 4, 32]);
+    let desc = json!({"op":"rcx","s":s,"kk":kk,"pad":pad,"tail":tail});
     let case = sink.begin_case(&desc);
     let res = guard(|| {
         let mut out: Vec<Value> = Vec::new();
@@ -1021,6 +1023,17 @@ pub fn rcx_event(sink: &Sink, r: &mut Rng) {
         let sl = ds.slice(0, n).rc();
         out.push(json!({"ty":"DnaStringSlice","rc":sl.bytes(),"rcrc":sl.rc().bytes(),
             "kmers_rc": if n >= kk { (0..=(n-kk)).map(|i| with_kmer!(kk, slice_kmer(&sl, i))).collect::<Vec<_>>() } else { vec![] }}));
+        // the same view at a non-zero offset inside a longer string, reverse-complemented twice over
+        let mut padded: Vec<u8> = (0..pad).map(|i| ((i * 7 + 3) % 4) as u8).collect();
+        padded.extend_from_slice(&s);
+        padded.extend((0..tail).map(|i| ((i * 5 + 1) % 4) as u8));
+        let dp = DnaString::from_bytes(&padded);
+        let so = dp.slice(pad, pad + n).rc();
+        out.push(json!({"ty":"DnaStringSlice@offset","rc":so.bytes(),"rcrc":so.rc().bytes(),
+            "kmers_rc": if n >= kk { (0..=(n-kk)).map(|i| with_kmer!(kk, slice_kmer(&so, i))).collect::<Vec<_>>() } else { vec![] }}));
+        let so3 = dp.slice(pad, pad + n).rc().rc().rc();
+        out.push(json!({"ty":"DnaStringSlice@offset.rc3","rc":so3.bytes(),"rcrc":so3.rc().bytes(),
+            "kmers_rc": with_kmer_v!(kk, kmers_of(&so3))}));
         if n <= 28 {
             let l = Lmer1::from_slice(&s);
             out.push(json!({"ty":"Lmer1","rc":mer_bases(&l.rc()),"rcrc":mer_bases(&l.rc().rc()),"kmers_rc": with_kmer_v!(kk, kmers_of(&l.rc()))}));
